@@ -15,6 +15,7 @@ import AnyVecModel.Proofs.KernelConsume
 import AnyVecModel.Proofs.KernelApiOps
 import AnyVecModel.Proofs.KernelCopyBytes
 import AnyVecModel.Props.Refine
+import AnyVecModel.Props.RefineMulti
 namespace AnyVec
 namespace C01
 variable {bg : Nat → Option VecSt}
@@ -335,6 +336,17 @@ theorem reachable_history_refines (cfg : Cfg) (w : World) (hr : Hist.Reach cfg w
       Refine.Rel (fun u => w.vecs[u]?) v d.ty (Refine.runOps cfg v d.ty w ops) s' ∧
       ∀ u, u ≠ v → (Refine.runOps cfg v d.ty w ops).vecs[u]? = w.vecs[u]? :=
   Refine.reachable_history_refines cfg w hr hf v d hv hl ops hall
+
+/-- **C01 for all vectors of a world at once** (Props/RefineMulti.lean): from any fault-free reachable world, any
+history of element-wise / range / capacity operations addressed to any of its live vectors in any order refines the list
+of abstract `Vec`s component by component, with one shared counter of identities -/
+theorem all_vectors_refine (cfg : Cfg) (w : World) (hr : Hist.Reach cfg w) (hf : w.fault = none)
+    (ops : List RefineMulti.MOp) :
+    ∃ ms, RefineMulti.MRel w ms ∧
+      ((∀ m ∈ ops, ∃ a, ms.vecs[m.v]? = some (some a) ∧ m.op.Allowed a.fixed) →
+        ∃ ms', RefineMulti.MSpec.Steps ms ops ms' ∧ RefineMulti.MRel (RefineMulti.mrun cfg w ops) ms') := by
+  obtain ⟨ms, hrel⟩ := RefineMulti.mrel_of_reach cfg w hr hf
+  exact ⟨ms, hrel, fun hall => RefineMulti.mhistory_refines cfg ops w ms hrel hall⟩
 
 end C01
 end AnyVec
